@@ -242,7 +242,7 @@ def h_transparent(t, part):
                         w.send(e2, w.P(packet.DISCONNECT))
                         live[e2] = None
             elif op == 2:
-                api(lambda: w.s.emit('news', (x, 'y'), room='room', skip_sid=live['e0'] if who else None))
+                api(lambda: w.s.emit('news', (x, b'bin' if x == 2 else 'y'), room='room', skip_sid=live['e0'] if who else None))
             elif op == 3 and sid:
                 api(lambda: w.s.emit('question', x, to=sid, callback=lambda *a: cbs.append(a)))
                 q = [p for p in worlds.decode_frames(w.P, w.frames(e)) if not isinstance(p, tuple) and p.packet_type == packet.EVENT
@@ -250,7 +250,7 @@ def h_transparent(t, part):
                 if q and q[-1].id is not None:
                     w.send(e, w.P(packet.ACK, data=['answer', x], id=q[-1].id))
             elif op == 4 and sid:
-                w.send(e, w.P(packet.EVENT, data=['ev', x], id=7 if x >= 0 else None))
+                w.send(e, w.P(packet.EVENT, data=['ev', b'bin' if x == 2 else x], id=7 if x >= 0 else None))
             elif op == 5 and sid:
                 w.send(e, w.P(packet.DISCONNECT))
                 live[e] = None
